@@ -254,7 +254,7 @@ def write_evidence(prop, tier, seed, results, extra, builds, violations, inconcl
             "checks_decided": r["checks"], "checks_failed": r["failed"],
             "covers": f"{r['covers_sat']}/{r['covers_total']}", "cbmc_s": r.get("cbmc_s"), "wall_s": r["wall_s"],
             "assumes": h["assume"], "stubs": h["stub"],
-            "unwindset": h.get("unwindset"), "unwindset_resolved": h.get("_unwindset"),
+            "unwindset": h.get("unwindset"), "unwindset_resolved": h.get("_unwindset"), "unwindset_note": h.get("_unwindset_note"),
             "failed_checks": r["failed_checks"][:5], "replay": r.get("replay"),
         })
     for er in extra:
